@@ -341,7 +341,10 @@ template<typename T> void register_tdigest(const std::string& name, int nvariant
       if (!d.empty) {
         uint64_t tw = d.buffer.size(); for (uint64_t w : d.weights) tw += w;
         VF_CHECK(tw == s.get_total_weight(), "tdigest|image-vs-api|total-weight", c2 + " stored=" + std::to_string(tw));
-        VF_CHECK(d.single == (tw == 1), "tdigest|image|single-value-flag-vs-weight", c2);
+        // the short single-value form implies weight 1 and nothing buffered; a single value still sitting in the buffer
+        // (with_buffer) is written in the long form with 0 centroids + 1 buffered value (fix 870935d keeps the merge direction)
+        if (d.single) VF_CHECK(tw == 1 && d.buffer.empty(), "tdigest|image|single-value-flag-vs-weight", c2);
+        else if (tw == 1) { VF_CHECK(d.means.size() + d.buffer.size() == 1, "tdigest|image|weight-one-long-form-not-one-value", c2); count("tdigest_single_in_long_form"); }
         VF_CHECK(d.min_v == s.get_min_value() && d.max_v == s.get_max_value(), "tdigest|image-vs-api|min-max", c2);
         if (!st.with_buffer) VF_CHECK(d.buffer.empty(), "tdigest|image|buffered-values-though-not-requested", c2);
         // private state (no public getter): centroids in order, buffered values in order
